@@ -347,8 +347,7 @@ func escapeUnderLockRule(p *Prog, r *Report, key string, scope []*ssa.Function) 
 // ---------- G-PERCENT: who may percent-(de)code ----------
 
 var percentAllowed = map[string]string{
-	"referenceclient.examineGRPCEndStream": "validates the percent-encoding of the grpc-message trailer as found on the wire (feedback only; the value is not passed on)",
-	"referenceclient.checkGRPCStatus":      "as above",
+	"referenceclient.checkGRPCStatus.PathUnescape": "validates the percent-encoding of the grpc-message trailer as found on the wire (feedback only); PathUnescape is the inverse of grpcutil's encoder — QueryUnescape would also turn '+' into a space",
 }
 
 // percentCodecRule: net/url's Escape/Unescape functions are used only by the
@@ -380,11 +379,9 @@ func percentCodecRule(p *Prog, r *Report, key string, scope []*ssa.Function) {
 			n++
 			r.Sites++
 			k := fmt.Sprintf("%s.%s.%s", key, shortFn(fn), o.Name())
-			for f, why := range percentAllowed {
-				if f == shortFn(fn) || strings.HasPrefix(shortFn(fn), f+"$") {
-					r.OK(k, "A-WHO", p.InstrPos(in), "table: "+why)
-					return
-				}
+			if why, ok := percentAllowed[shortFn(fn)+"."+o.Name()]; ok {
+				r.OK(k, "A-WHO", p.InstrPos(in), "table: "+why)
+				return
 			}
 			r.Fail(k, "A-WHO", p.InstrPos(in), "in "+shortFn(fn)+" url."+o.Name()+" is applied: the RPC libraries already percent-decode/encode grpc-message exactly once; applying the codec again changes every text that contains a literal %XX sequence (\"50%25\" becomes \"50%\"), so a message does not survive the conversion")
 		})
